@@ -322,7 +322,9 @@ func kittyEncodings(r gen.R, thin int) []enc {
 			}
 			if mods&^(mShift|mCaps|mNum) == 0 && c >= 0x20 {
 				text = string(code)
-				if mods&mShift != 0 {
+				// the text a keyboard produces: Shift or Caps Lock (not
+				// both) upper-cases a letter
+				if (mods&mShift != 0) != (mods&mCaps != 0 && unicode.IsLetter(code)) {
 					text = string(unicode.ToUpper(code))
 				}
 			}
